@@ -60,6 +60,10 @@ PROGS = [
     "8 | io=accept:1,waitflag:s,atstop,data:1:3 ; main=mode:1:sync,setflag:s,waitparked:a,destroy ; a=waitflag:s,recv:1:8:100000",
     "8 | io=accept:1,waitflag:s,data:1:2,atstop,data:1:3,data:1:1 ; main=mode:1:sync,setflag:s,waitparked:a,stop,join ; a=waitflag:s,recv:1:2:100000,recv:1:8:100000,recv:1:8:50",
     "8 | io=accept:1,accept:2,waitflag:s,atstop,data:2:2,data:1:3 ; main=mode:1:sync,mode:2:sync,setflag:s,waitparked:a,destroy ; a=waitflag:s,recv:1:8:100000 ; b=waitflag:s,recv:2:8:100000",
+    # ... likewise an accept, a peer close and a late connect completion in the rest of the batch
+    "8 | io=accept:1,waitflag:s,atstop,accept:2,data:2:2,close:1 ; main=mode:1:sync,setflag:s,waitparked:a,destroy ; a=waitflag:s,recv:1:8:100000",
+    "8 | io=accept:1,waitflag:s,atstop,data:1:3,close:1 ; main=mode:1:sync,setflag:s,waitparked:a,destroy ; a=waitflag:s,recv:1:2:100000",
+    "8 | io=waitflag:s,atstop,connected:1 ; main=setflag:s,waitparked:a,destroy ; a=csync:100000",
 ]
 
 
